@@ -12,13 +12,14 @@ demo_path=$(python3 -c "import json;print(json.load(open('$d/meta.json'))['demo_
 demo_cmd=$(python3 -c "import json;print(json.load(open('$d/meta.json'))['demo_cmd'].replace('<repo root>','.'))")
 pkgs=$(python3 -c "import json;print(' '.join(json.load(open('$d/meta.json'))['touched_packages']))")
 demo_src=$(ls $d/*.go | head -1)
-mkdir -p $(dirname $demo_path); cp $demo_src $demo_path
+demo_path=$(echo "$demo_path" | awk '{print $1}')
+mkdir -p "$(dirname "$demo_path")"; cp "$demo_src" "$demo_path"
 echo "== $name: demo without patch"; (eval "$demo_cmd") >/tmp/vs-$$.log 2>&1; r1=$?; tail -2 /tmp/vs-$$.log
 git apply $d/patch.diff || { echo "RESULT $name APPLY-FAILED"; exit 1; }
 echo "== demo with patch"; (eval "$demo_cmd") >/tmp/vs-$$.log 2>&1; r2=$?; tail -2 /tmp/vs-$$.log
-rm -f $demo_path
+rm -f "$demo_path"
 echo "== build"; go build ./... ; r3=$?
 echo "== package tests with patch"; r4=0
-for p in $pkgs; do go test -vet=off -count=1 $p 2>&1 | tail -2; [ ${PIPESTATUS[0]} -ne 0 ] && r4=1; done
+for p in $pkgs; do go test -vet=off -count=1 -timeout 30m $p > /tmp/vs-$$.pkg.log 2>&1; rc=$?; grep -E "^(--- FAIL|FAIL|ok|panic:)" /tmp/vs-$$.pkg.log | head -8; [ $rc -ne 0 ] && r4=1; rm -f /tmp/vs-$$.pkg.log; done
 echo "RESULT $name demo_without=$r1 demo_with=$r2 build=$r3 tests_with=$r4  (want 0, nonzero, 0, 0)"
 rm -f /tmp/vs-$$.log
